@@ -6,6 +6,8 @@ from __future__ import annotations
 import itertools
 import math
 
+import re
+
 from vp import nmtran_ref as R
 from vp.ir_eval import EvalError, Unbound, ev
 
@@ -194,16 +196,28 @@ class TextDen:
         self.pk_names = R.assigned_names(rm.pk)
         self.err_names = R.assigned_names(rm.error if rm.advan else rm.pred)
 
+    # repairs used only by delta checks of classifiers (never by a primary comparison)
+    eta_name_env = None  # list of model eta names: raw ETA(k) is read as the model's random variable "ETA_k"
+    err_amount_names = None  # model compartment order: A(k) in $ERROR is read as amount of the k-th of these
+
     def env(self, theta, eta, eps, rec, t):
         st = {}
         for i, v in enumerate(theta, 1):
             st[f"THETA({i})"] = v
         for i, v in enumerate(eta, 1):
             st[f"ETA({i})"] = v
+        if self.eta_name_env:
+            byname = dict(zip(self.eta_name_env, eta))
+            for nm, v in byname.items():
+                m = re.fullmatch(r"ETA_(\d+)", nm)
+                if m:
+                    st[f"ETA({int(m.group(1))})"] = v
         for i, v in enumerate(eps, 1):
             st[f"EPS({i})"] = v
         for name, key in self.rm.abbr.items():
-            if key in st:
+            if self.eta_name_env and name in self.eta_name_env:
+                st[name] = dict(zip(self.eta_name_env, eta))[name]
+            elif key in st:
                 st[name] = st[key]
             elif key.startswith("ERR(") and "EPS(" + key[4:] in st:
                 st[name] = st["EPS(" + key[4:]]
@@ -238,6 +252,10 @@ class TextDen:
         if s == 0:
             raise R.RefError("S=0")
         st["F"] = a[oc - 1] / s if f_value is None else f_value
+        if self.err_amount_names:
+            for k, nm in enumerate(self.err_amount_names, 1):
+                if nm in self.names:
+                    st[f"A({k})"] = a[self.names.index(nm)]
         R.exec_code(rm.error, st)
         return st
 
@@ -328,8 +346,15 @@ def _beq(a, b):
     return close(a, b, 1e-12)
 
 
-def _perms(text_names, ir_names):
-    """Yield mappings text index (0-based) -> IR compartment name, consistent with equal names."""
+def _perms(text_names, ir_names, free=False):
+    """Yield mappings text index (0-based) -> IR compartment name, consistent with equal names (free=True: any
+    bijection, used only by the relabelling delta check)."""
+    if free:
+        if len(text_names) != len(ir_names) or len(ir_names) > 6:
+            return
+        for perm in itertools.permutations(ir_names):
+            yield dict(enumerate(perm))
+        return
     fixed = {}
     free_t = []
     used = set()
@@ -354,20 +379,20 @@ def _perms(text_names, ir_names):
 
 
 def compare_dynamic(td: TextDen, ird: IRDen, records, rng, K, c, prefix="", dose_info=None, f_from_ir=False,
-                    skip_events=False):
+                    skip_events=False, free_perm=False):
     """See _compare_dynamic.  All evaluations run in 50-digit arithmetic (vp.numctx) so that neither side's
     rounding decides a verdict; conditioning is probed by perturbing every leaf (inputs and literals)."""
     from vp.numctx import CTX
 
     CTX.use_mp()
     try:
-        return _compare_dynamic(td, ird, records, rng, K, c, prefix, dose_info, f_from_ir, skip_events)
+        return _compare_dynamic(td, ird, records, rng, K, c, prefix, dose_info, f_from_ir, skip_events, free_perm)
     finally:
         CTX.use_float()
 
 
 def _compare_dynamic(td: TextDen, ird: IRDen, records, rng, K, c, prefix="", dose_info=None, f_from_ir=False,
-                     skip_events=False):
+                     skip_events=False, free_perm=False):
     """Sampled comparison of $PK variables, vector field, events and $ERROR variables.
 
     records: list of dicts (data records: column name -> float).  dose_info: optional dict from the harness
@@ -389,7 +414,7 @@ def _compare_dynamic(td: TextDen, ird: IRDen, records, rng, K, c, prefix="", dos
     if has_ode:
         if td.n != len(ird.cnames):
             raise Mismatch(f"number of compartments: text {td.n} ({td.names}), model {len(ird.cnames)} ({ird.cnames})")
-        perms = list(_perms(td.names, ird.cnames))
+        perms = list(_perms(td.names, ird.cnames, free_perm))
         if not perms:
             raise Mismatch(f"compartment names cannot be aligned: text {td.names}, model {ird.cnames}")
     attempts = 0
@@ -576,6 +601,10 @@ def _compare_dynamic(td: TextDen, ird: IRDen, records, rng, K, c, prefix="", dos
         judged += 1
     if judged == 0:
         c.hit(prefix + "no_point_judged")
+    try:
+        c.last_perms = surviving
+    except Exception:
+        pass
     return judged
 
 
